@@ -243,8 +243,11 @@ def validate_chunk(runs, workdir, tag, stats, timeout=300):
         evs.extend(r.events)
     evs.append({"ev": "End"})
     vlib.write_ndjson(path, evs)
-    res = vlib.tlc("TraceDriver", "TraceDriver", workers=1, env={"TRACE": path}, timeout=timeout, xss="64m", xmx="1g",
-                   extra=("-continue",))
+    for attempt in (0, 1):      # a JVM that starves on an overloaded machine is retried once, with more time
+        res = vlib.tlc("TraceDriver", "TraceDriver", workers=1, env={"TRACE": path}, timeout=timeout * (1 + 3 * attempt),
+                       xss="64m", xmx="1g", extra=("-continue",))
+        if re.search(r'<<"END", %d>>' % len(evs), res.out):
+            break
     os.unlink(path)
     with _lock:
         stats["tlc_runs"] += 1
